@@ -653,7 +653,7 @@ def fam_patma(r, n):
     """match statements: mapping patterns over dict displays with literal / non-literal / ** entries,
     sequence patterns with stars, class patterns, or-patterns, guards, captures."""
     lines = ["from typing import Any, Dict, List, Optional, Tuple, Union", "from typing_extensions import NotRequired, TypedDict", "from vlib.data import Color, Point, Account, Movie", ""]
-    lines += ["def pm_%d(a: str, b: str, k: int, extra: Dict[str, bytes], m: Movie, seq: List[Union[int, str]], t: Tuple[int, str, bytes], o: Optional[Point]) -> None:" % n]
+    lines += ["def pm_%d(a: str, b: str, k: int, extra: Dict[str, bytes], m: Movie, seq: List[Union[bytes, float]], t: Tuple[int, str, bytes], o: Optional[Point]) -> None:" % n]
     body = []
     for choice in r.sample(range(10), r.randint(2, 5)):
         if choice == 0:
@@ -682,7 +682,36 @@ def fam_patma(r, n):
     return lines
 
 
+def fam_alias695(r, n):
+    """PEP 695 / TypeAliasType generic aliases, subscripted in parameter annotations with hashable
+    and unhashable (Annotated with dataclass metadata) arguments."""
+    lines = ["from dataclasses import dataclass", "from typing import Annotated, Dict, List", "from typing_extensions import TypeAliasType, TypeVar", "",
+             "@dataclass", "class Meta:", "    unit: str", "", "AT = TypeVar(\"AT\")", ""]
+    shapes = {"Box": "list[T]", "Pair": "tuple[T, T]", "Table": "dict[str, T]", "Maybe": "T | None", "Nest": "list[tuple[T, int]]"}
+    names = r.sample(sorted(shapes), r.randint(2, 3))
+    for nm in names:
+        if r.chance(0.7):
+            lines += ["type %s[T] = %s" % (nm, shapes[nm]), ""]
+        else:
+            lines += ["%s = TypeAliasType(\"%s\", %s, type_params=(AT,))" % (nm, nm, shapes[nm].replace("T", "AT")), ""]
+    args = ["int", "str", "Annotated[int, Meta(\"kg\")]", "Annotated[str, Meta(\"m\")]", "Annotated[bytes, \"plain\"]", "list[int]"]
+    for k, nm in enumerate(names):
+        a = r.choice(args)
+        lines += ["def use_%s_%d_%d(v: %s[%s], w: %s[%s]) -> None:" % (nm.lower(), n, k, nm, a, nm, r.choice(args)), "    reveal_type(v)", "    reveal_type(w)"]
+        if nm in ("Box", "Nest"):
+            lines += ["    reveal_type(v[0])", "    v.append(1)"]
+        elif nm == "Pair":
+            lines += ["    reveal_type(v[0] + v[1])"]
+        elif nm == "Table":
+            lines += ["    reveal_type(v[\"k\"])", "    reveal_type(v.get(1))"]
+        else:
+            lines += ["    if v is not None:", "        reveal_type(v)"]
+        lines.append("")
+    return lines
+
+
 FAMILIES = {
+    "alias695": fam_alias695,
     "patma": fam_patma,
     "stdlib": fam_stdlib,
     "local_multi": fam_local_multi,
